@@ -129,6 +129,16 @@ def check(d, props, tier="quick"):
     return out
 
 
+def record(d, res, tier, run):
+    """append the verdicts of one `check` run to <dir>/checks.json (the run history of that seeded change)"""
+    f = os.path.join(d, "checks.json")
+    hist = json.load(open(f)) if os.path.exists(f) else {}
+    for p, r in res.items():
+        hist.setdefault(p, []).append({"tier": tier, "exit": r["exit"], "verdict": [l for l in r["lines"] if l.startswith("VIOLATION")],
+                                       "detail": r["detail"], "run": run})
+    json.dump(hist, open(f, "w"), indent=1)
+
+
 if __name__ == "__main__":
     if len(sys.argv) < 3:
         print(__doc__)
@@ -137,4 +147,6 @@ if __name__ == "__main__":
         print(json.dumps(validate(sys.argv[2]), indent=1))
     elif sys.argv[1] == "check":
         tier = os.environ.get("VERIF_TIER", "quick")
-        print(json.dumps(check(sys.argv[2], sys.argv[3:], tier), indent=1))
+        res = check(sys.argv[2], sys.argv[3:], tier)
+        print(json.dumps(res, indent=1))
+        record(sys.argv[2], res, tier, os.environ.get("SEEDED_NOTE", time.strftime("%Y-%m-%dT%H:%M:%S")))
